@@ -162,8 +162,35 @@ def r17c(ctx, rep, cr):
                 rep.violation('R17c', m, 'unconditional-insert', m.loc(c.line), 'merge stores an incoming state without a must-pass supersedes test: views can move backwards')
 
 
+def r17d(ctx, rep, cr):
+    rep.rule('R17d', 'one order decides: in LWWMembershipState::merge, the closure that decides whether an incoming state replaces the held '
+                     'one returns only after it has called GossipNodeState::supersedes (no return is reachable with the call cut). A '
+                     'special case answered before the order is consulted (e.g. "a held Failed is final against a later Healthy of the '
+                     'same incarnation") is decided by what the node already holds, so two nodes that receive the same updates in '
+                     'opposite orders keep different views')
+    n = 0
+    for h in A.with_closures(cr.fns, LW + '::merge'):
+        if h.name == LW + '::merge':
+            continue
+        sup = A.calls_to(h, GS + '::supersedes')
+        if not sup:
+            continue
+        n += 1
+        rep.analysed(h)
+        R = A.reachable(h, [0], cut_blocks={c.bb for c in sup})
+        rets = [r for r in A.return_blocks(h) if r in R]
+        if rets:
+            rep.violation('R17d', h, 'decision-before-order', h.loc(lib.first_line(h, rets[0])),
+                          'the replace-or-keep decision can be returned without consulting supersedes: that path depends on the held state '
+                          'alone, and merge stops being independent of arrival order')
+        else:
+            rep.holds('R17d', h, 'supersedes must-pass', '')
+    rep.floor('R17d', 'decision closures in merge', n, 1)
+
+
 def run(ctx, rep):
     cr = ctx.crate('tensor_chain')
     r17a(ctx, rep, cr)
     r17b(ctx, rep, cr)
     r17c(ctx, rep, cr)
+    r17d(ctx, rep, cr)
